@@ -453,7 +453,7 @@ def parse_iv(s, mode):
 
 def case_sig(cfg, it):
     return dict(label=cfg['label'], mix=cfg['mix'], icpt=cfg['fit_intercept'], lam=cfg['lam'], n=cfg['n'], ns=cfg['ns'],
-                mode=it['mode'], term=it['term'], mesh=it['mesh'],
+                mode=it['mode'], term=it['term'], mesh=it['mesh'], **({'tag': cfg['tag']} if 'tag' in cfg else {}),
                 spec=('q', [float(q) for q in np.atleast_1d(it['quantiles'])]) if it['quantiles'] is not None else ('w', it['width']))
 
 
@@ -463,9 +463,9 @@ def jsonable_case(cfg, it):
                 mesh=it['mesh'])
 
 
-def check_models(ctx, P, prepared):
-    """driver phase for a list of prepared models + comparison + oracle"""
-    st = {'ci': 'iv.ci', 'pi': 'iv.pi', 'pd': 'iv.pd'}
+def check_models(ctx, P, prepared, stream=None):
+    """driver phase for a list of prepared models + comparison + oracle (`stream`: register every case under that stream)"""
+    st = {'ci': 'iv.ci', 'pi': 'iv.pi', 'pd': 'iv.pd'} if stream is None else {'ci': stream, 'pi': stream, 'pd': stream}
     ctx.stream('iv.ci', 'confidence_intervals(X, width|quantiles) vs getQuantiles at Float, 1e-9 rel (+ conditioning of the quadratic form)')
     ctx.stream('iv.pi', 'LinearGAM.prediction_intervals(X, width|quantiles) vs the model, 1e-9 rel')
     ctx.stream('iv.pd', 'partial_dependence(term, X, width|quantiles[, meshgrid]) point + intervals vs the model (own block), 1e-9 rel')
@@ -493,7 +493,7 @@ def check_models(ctx, P, prepared):
         # the oracle's own idea of the reference distribution
         oref = ('norm',) if fit.known else ('t', fit.n - fit.edof)
         if oref != ref and not (len(ref) == 2 and ref[1] != ref[1] and oref[1] != oref[1]):
-            ctx.disagree('iv.ci', dict(cfg=p['cfg']), str(oref), str(ref), 'reference distribution / degrees of freedom')
+            ctx.disagree(st['ci'], dict(cfg=p['cfg']), str(oref), str(ref), 'reference distribution / degrees of freedom')
         for k, it in enumerate(p['items']):
             lines.append(iv_line(fit, it, ref))
             index.append((p, k))
@@ -534,8 +534,11 @@ def check_models(ctx, P, prepared):
         bad_oracle = not arr_close(impl[2], ob, tol, 10.0) or (mode == 'pd' and not arr_close(impl[1], point, ptol, 10.0))
         if bad_oracle and nfail < MAX_FAILS:
             # re-execute once on the real code before reporting
-            again = call_api(fit, mode, it['term'], it['Xcall'], None if (mode != 'pd' and it['width'] is None and it['quantiles'] is None) else it['width'],
-                             it['quantiles'], it['mesh'])
+            if it.get('reexec') is not None:
+                again = it['reexec']()
+            else:
+                again = call_api(fit, mode, it['term'], it['Xcall'], None if (mode != 'pd' and it['width'] is None and it['quantiles'] is None) else it['width'],
+                                 it['quantiles'], it['mesh'])
             if again[0] == 'ok' and not arr_close(again[2], ob, tol, 10.0) or (mode == 'pd' and again[0] == 'ok' and not arr_close(again[1], point, ptol, 10.0)):
                 nfail += 1
                 ctx.fail(stream, sig, jsonable_case(cfg, it),
@@ -573,6 +576,185 @@ def run_intervals(ctx, P, lits, cfgs):
     prepared = [prepare_model(P, cfg, lits, ctx.tier) for cfg in cfgs]
     check_models(ctx, P, prepared)
     return prepared
+
+
+# ------------------------------------------------------------------------------------------------
+# histories: the intervals of a model that was fitted more than once belong to the CURRENT fit
+# ------------------------------------------------------------------------------------------------
+HIST_LABELS = ['LinearGAM', 'GammaGAM', 'GAM/normal/log']
+HIST_KINDS = ['n-up', 'n-down', 'lam', 'interleaved']
+HIST_LEVELS = [0.025, 0.25, 0.9, 0.975]
+
+
+def history_step(gam, cfg, tag, X, Xq):
+    """query the ORIGINAL object now (same levels at every step); the statistics / model-matrix rows are read from a
+    snapshot taken at this moment, so later refits of the object do not disturb the comparison"""
+    import copy
+    snap = copy.deepcopy(gam)
+    cfg = dict(cfg, tag=tag)
+    fit = Fit(snap, cfg)
+    if not fit.finite:
+        return dict(cfg=cfg, error='non-finite-statistics')
+    live = copy.copy(fit)
+    live.gam = gam
+    reqs = [('ci', -1, None, list(HIST_LEVELS)), ('ci', -1, 0.95, None), ('ci', -1, 0.8, None)]
+    if hasattr(gam, 'prediction_intervals'):
+        reqs += [('pi', -1, None, list(HIST_LEVELS)), ('pi', -1, 0.95, None)]
+    for i, t in enumerate(gam.terms):
+        if not t.isintercept and fit.blocks[i] is not None:
+            reqs += [('pd', i, 0.95, None), ('pd', i, None, list(HIST_LEVELS))]
+            break
+    items = []
+    for (mode, term, width, quantiles) in reqs:
+        res = call_api(live, mode, term, Xq, width, quantiles)
+        items.append(dict(mode=mode, term=term, width=width, quantiles=quantiles, mesh=False, Xrows=np.asarray(Xq, dtype=float),
+                          Xcall=Xq, res=res, levels=resolved_levels(width, quantiles), reexec=(lambda r=res: r)))
+    return dict(cfg=cfg, fit=fit, items=items, X=X, Xq=Xq)
+
+
+def history_cases(ctx):
+    n = 12 if ctx.tier == 'quick' else 72
+    out = []
+    for h in range(n):
+        rng = common.random.Random('C09-hist-%d-%d' % (ctx.seed, h))
+        out.append(dict(h=h, seed=ctx.seed, kind=HIST_KINDS[h % len(HIST_KINDS)], label=HIST_LABELS[(h // len(HIST_KINDS)) % len(HIST_LABELS)],
+                        mix=rng.choice(['s0', 's0+l1', 's0+f2', 'l0+l1']), n_small=rng.choice([14, 16, 20]),
+                        n_large=rng.choice([60, 120, 300]), lam2=rng.choice([1e-3, 50.0, 1000.0])))
+    return out
+
+
+def run_one_history(P, hc, tier):
+    """returns the list of prepared query steps of one history"""
+    base_idx = 500000 + 10 * hc['h']
+
+    def cfg_for(n, j):
+        c = make_cfg(hc['seed'], base_idx + j, hc['label'], hc['mix'], tier)
+        c.update(n=n, lam=0.6, ns=6, fit_intercept=True, nq=7, hist=hc)
+        return c
+
+    kind = hc['kind']
+    cs, cl = cfg_for(hc['n_small'], 0), cfg_for(hc['n_large'], 1)
+    first, second = (cs, cl) if kind != 'n-down' else (cl, cs)
+    steps = []
+    try:
+        gam, X1, y1, Xq1 = fit_model(P, first)
+        X2, y2, Xq2 = gen_data(second)
+        steps.append(history_step(gam, first, 'step0:fit', X1, Xq1))
+        if kind in ('n-up', 'n-down'):
+            gam.fit(X2, y2)
+            steps.append(history_step(gam, second, 'step1:refit-other-n', X2, Xq2))
+            gam.fit(X1, y1)
+            steps.append(history_step(gam, first, 'step2:refit-back', X1, Xq1))
+        elif kind == 'lam':
+            gam.lam = hc['lam2']
+            gam.fit(X1, y1)
+            steps.append(history_step(gam, dict(first, lam=hc['lam2']), 'step1:refit-other-lam', X1, Xq1))
+            gam.set_params(lam=0.6, force=True)
+            gam.fit(X2, y2)
+            steps.append(history_step(gam, second, 'step2:refit-other-n-and-lam', X2, Xq2))
+        else:
+            gam2, _, _, _ = fit_model(P, second)
+            steps.append(history_step(gam2, second, 'step1:second-model', X2, Xq2))
+            steps.append(history_step(gam, first, 'step2:first-model-again', X1, Xq1))
+            gam.fit(X2, y2)
+            steps.append(history_step(gam2, second, 'step3:second-model-after-refit-of-first', X2, Xq1))
+            steps.append(history_step(gam, second, 'step4:first-model-refitted', X2, Xq2))
+            gam2.fit(X1, y1)
+            steps.append(history_step(gam2, first, 'step5:second-model-refitted', X1, Xq2))
+    except Exception as e:                      # noqa: BLE001
+        steps.append(dict(cfg=dict(first, tag='error'), error=type(e).__name__))
+    return steps
+
+
+def run_history(ctx, P, only=None):
+    st = 'iv.history'
+    ctx.stream(st, 'histories on one object (fit, query, refit on another n / another lam, query the same levels again; reverse order; '
+                   'interleaved second model): CI by quantiles and width, PI, pdep vs the model fed the CURRENT statistics_')
+    prepared = []
+    for hc in history_cases(ctx) if only is None else [only]:
+        steps = run_one_history(P, hc, ctx.tier)
+        for sp_ in steps:
+            ctx.count('history-step', '%s/%s' % (hc['kind'], sp_['cfg'].get('tag')))
+        prepared += steps
+    check_models(ctx, P, prepared, stream=st)
+
+
+# ------------------------------------------------------------------------------------------------
+# large queries: every row of a big X gets the bound it gets when queried alone
+# ------------------------------------------------------------------------------------------------
+def large_sizes(P):
+    import pygam.pygam as M
+    sizes = {12345, 25001}
+    for node in ast.walk(ast.parse(inspect.getsource(M))):
+        if isinstance(node, ast.Constant) and isinstance(node.value, int) and not isinstance(node.value, bool) \
+                and 1000 <= node.value <= 200000:
+            sizes.add(node.value + 2345)
+    return sorted(sizes)
+
+
+def run_large(ctx, P, only=None):
+    st = 'iv.large'
+    ctx.stream(st, 'X with > 10^4 rows (12345, 25001, every int literal >= 1000 of pygam.py + 2345): ci / pi / pdep(width) rows equal the '
+                   'same rows queried alone (exact) and the model formula')
+    sizes = large_sizes(P) if only is None else [only]
+    cfg = make_cfg(ctx.seed, 900000, 'LinearGAM', 's0+l1', ctx.tier)
+    cfg.update(n=60, lam=0.6, ns=5, fit_intercept=True, nq=5)
+    gam, X, y, _ = fit_model(P, cfg)
+    prepared = []
+    nfail = 0
+    for size in sizes:
+        c = dict(cfg, tag='large-%d' % size, large=size)
+        rs = np.random.RandomState(common.random.Random('C09-large-%d-%d' % (ctx.seed, size)).randrange(2 ** 31))
+        XL = np.c_[rs.uniform(-0.25, 1.25, size), rs.uniform(-3, 3, size), rs.randint(0, 4, size).astype(float),
+                   rs.choice([-1.0, 0.5, 1.0, 2.0], size)]
+        # rows to look at: both ends, around every multiple of every candidate block size, random ones
+        rows = set(range(3)) | set(range(size - 3, size)) | set(int(r) for r in rs.randint(0, size, 20))
+        for L in sorted(set(s_ - 2345 for s_ in large_sizes(P)) | {10000, 1000, 4096, 8192, 65536}):
+            if L < size:
+                k = (size // L) * L
+                rows |= {L - 1, L, k - 1, k, min(size - 1, k + 1), (k + size) // 2}
+        rows = sorted(r for r in rows if 0 <= r < size)
+        fit = Fit(gam, c)
+        items = []
+        for (mode, term) in [('ci', -1), ('pi', -1), ('pd', 0)]:
+            def big(mode=mode, term=term):
+                r = call_api(fit, mode, term, XL, 0.9, None)
+                if r[0] != 'ok':
+                    return r
+                return ('ok', None if r[1] is None else r[1][rows], r[2][rows])
+            res = big()
+            alone = call_api(fit, mode, term, XL[rows], 0.9, None)
+            sig = dict(size=size, mode=mode, what='row-wise consistency')
+            ctx.case(st, sig, nontrivial=True)
+            ctx.count('large-size', size)
+            if res[0] != 'ok' or alone[0] != 'ok':
+                if nfail < MAX_FAILS:
+                    nfail += 1
+                    ctx.fail(st, sig, dict(cfg=c, mode=mode, size=size), observed=(res[0], alone[0]), expected='results',
+                             oracle='a valid call on a large X returns intervals')
+                continue
+            same = np.array_equal(res[2], alone[2], equal_nan=True) and (mode != 'pd' or np.array_equal(res[1], alone[1], equal_nan=True))
+            if not same:
+                with np.errstate(all='ignore'):
+                    rel = np.abs(res[2] - alone[2]) / np.maximum(np.abs(alone[2]), 1e-300)
+                bad = np.argwhere(~(rel <= 1e-9))
+                if bad.size and nfail < MAX_FAILS:
+                    again = big()
+                    if again[0] == 'ok' and not np.all(np.abs(again[2] - alone[2]) <= 1e-8 * np.maximum(np.abs(alone[2]), 1e-300)):
+                        nfail += 1
+                        r0 = rows[int(bad[0][0])]
+                        ctx.fail(st, sig, dict(cfg=c, mode=mode, size=size, row=r0),
+                                 observed=dict(row=r0, in_large_query=again[2][int(bad[0][0])].tolist()),
+                                 expected=dict(queried_alone=alone[2][int(bad[0][0])].tolist()),
+                                 oracle='the bounds of a row do not depend on which other rows are queried with it',
+                                 detail='%d of %d inspected rows differ' % (len(set(int(b[0]) for b in bad)), len(rows)))
+                        continue
+                elif not bad.size:
+                    ctx.count('large-rowwise-last-bits', mode)
+            items.append(dict(mode=mode, term=term, width=0.9, quantiles=None, mesh=False, Xrows=XL[rows], Xcall=XL[rows], res=res,
+                              levels=resolved_levels(0.9, None), reexec=big))
+        prepared.append(dict(cfg=c, fit=fit, items=items, X=X, Xq=XL[rows]))
+    check_models(ctx, P, prepared, stream=st)
 
 
 # ------------------------------------------------------------------------------------------------
@@ -783,6 +965,8 @@ def run(ctx):
     prepared = run_intervals(ctx, P, lits, cfgs)
     run_width(ctx, P, prepared, lits)
     run_reject(ctx, P, prepared, lits)
+    run_history(ctx, P)
+    run_large(ctx, P)
     run_ppf_contract(ctx, prepared)
     ctx.count('literals', ','.join(repr(v) for v in lits))
 
@@ -795,6 +979,10 @@ def replay(ctx, rp):
     cfg = case.get('cfg')
     if not cfg:
         return run(ctx)
+    if cfg.get('hist') is not None:
+        return run_history(ctx, P, only=cfg['hist'])
+    if cfg.get('large') is not None:
+        return run_large(ctx, P, only=cfg['large'])
     prepared = run_intervals(ctx, P, lits, [cfg])
     run_width(ctx, P, prepared, lits)
     run_reject(ctx, P, prepared, lits)
